@@ -171,6 +171,7 @@ func genPart(c *ctx, stream string, nFlows, nPars int, o prog.GenOpts, orders in
 	}
 	a := runGen(c, co, tags, per, race)
 	cov := a.coverage(ruleG + nontrivial)
+	cov["programs_generated_twice_the_first_time_against_an_earlier_version_of_their_helper_package"] = co.Decoys
 	if race {
 		cov["race_reports"] = a.RaceReports
 	}
